@@ -13,6 +13,7 @@ import (
 	"encoding/json"
 	"fmt"
 	"math/big"
+	"os"
 	"sort"
 	"strings"
 	"time"
@@ -715,6 +716,12 @@ func genesisRunCase(id string, in hInput) []Case {
 		return fail("second export failed: " + err.Error())
 	}
 	msgs := []string{}
+	if genesisDump {
+		for _, m := range haqqModules {
+			s1, _ := canonJSON(gs1[m])
+			fmt.Fprintf(os.Stderr, "== %s\n%s\n", m, s1)
+		}
+	}
 	// per module documents
 	mods := map[string]bool{}
 	for m := range gs1 {
@@ -925,7 +932,10 @@ func genHistory(r *Rng, nBlocks, opsPerBlock int) hInput {
 	return in
 }
 
+var genesisDump bool
+
 func genesisDriver(cfg Config, out *Out) error {
+	genesisDump = cfg.Args["dump"] != ""
 	emit := func(cs []Case) {
 		for _, c := range cs {
 			out.Emit(c)
